@@ -112,6 +112,9 @@ func init() {
 			k := SwarmKnobs(rng)
 			k.MaxGas = -1
 			su := &Setup{Knobs: k, Sess: gen.NewSession()}
+			// GASLIMIT makes the running gas total (exempt by the property) visible to contracts
+			su.Sess.M["olvm-no-gaslimit"] = true
+			gen.OlvmNoGaslimit = true
 			su.Replicas = append(su.Replicas, core.ReplicaConf{Identity: "x0", Quiet: true, Recent: 10, Every: 100, Cycles: 10, WitnessInitEarly: true})
 			su.Gens = allGens(rng)
 			su.Gens = append(su.Gens, gen.Failures{})
